@@ -159,6 +159,12 @@ func (vc *VC) checkedGoal(ctx *SpecCtx, e SExpr) (string, string) {
 	g := ctx.evalBool(e)
 	if len(vc.errs) > n {
 		why := strings.Join(vc.errs[n:], "; ")
+		if strings.Contains(why, "unknown identifier") || strings.Contains(why, "is ambiguous") {
+			// a name the clause uses does not exist (any more): possibly a mere renaming, so
+			// this is "cannot decide" (engine error, kept in vc.errs), not a failed obligation:
+			// the clause is neither posed nor assumed
+			return "true", ""
+		}
 		vc.errs = vc.errs[:n]
 		return "false", " [the clause cannot be evaluated on the current code: " + why + "]"
 	}
